@@ -44,9 +44,10 @@
 (*           in the integer type: both integer neighbours of the exact mean   *)
 (*           are admitted (the statement fixes the type, not the rounding),   *)
 (*           hence lo = floor(sum lo / 4), hi = ceiling(sum hi / 4).          *)
-(* Domain (DomainOK): integer values are 0 or >= 4^Depth (so a defined pixel  *)
-(* never averages down to the undefined value 0), no negative integers, no    *)
-(* entirely zero integer leaf, a Colour pixel with alpha 0 is all zero.       *)
+(* Domain (DomainOK): no negative integers (Int: any value >= 0, all-zero     *)
+(* tiles and low counts included - integer data has no undefined value);      *)
+(* Colour: non-zero channel values are >= 4^Depth (so a defined pixel's alpha *)
+(* never averages down to 0 = undefined), alpha 0 means all channels zero.    *)
 (* Leaf values are integers; the harness maps them to concrete pixel values.  *)
 EXTENDS TileMerge
 
@@ -111,10 +112,10 @@ DomainOK(c) ==
           /\ (v = <<>>) => c.mode = "Float"
           /\ (v # <<>> /\ c.mode # "Float") => Len(v) = NCh(c.mode)
           /\ (v # <<>> /\ c.mode = "Float") => Len(v) = 1 \/ v = PosInf \/ v = NegInf
-          /\ (v # <<>> /\ c.mode # "Float") => \A ch \in 1..Len(v) : v[ch] = 0 \/ v[ch] >= 4 ^ Depth
+          /\ (v # <<>> /\ c.mode = "Int") => v[1] >= 0
+          /\ (v # <<>> /\ c.mode = "Colour") => \A ch \in 1..Len(v) : v[ch] = 0 \/ v[ch] >= 4 ^ Depth
           /\ (v # <<>> /\ c.mode = "Colour" /\ v[4] = 0) => v = <<0, 0, 0, 0>>
           /\ (v # <<>> /\ c.mode = "Colour" /\ v[4] # 0) => \A ch \in 1..3 : v[ch] <= 255 /\ v[4] <= 255
-    /\ c.mode = "Int" => \A l \in DOMAIN c.leaves : ~AllUndef(c.mode, LeafMatrix(c, l))
     /\ c.stale \subseteq UpTo(Depth - 1)
 
 VARIABLES c,      \* the case (frozen)
@@ -133,15 +134,24 @@ Init == /\ \E x \in Cases : LET f == Final(x) IN Connected(x.mode, f) /\ c = x /
         /\ done = {}
 
 \* the walk's guarantee: children's callbacks complete first (live children only; leaves have no callback)
-ReadySet == {p \in Ops(c) \ done : \A k \in Kids(p) : k \in Ops(c) => k \in done}
-WalkIndex(p) == IndexOf(GeneratePos(Depth), p)
-Ready(p) == p \in ReadySet /\ Cardinality({q \in ReadySet : WalkIndex(q) < WalkIndex(p)}) < Window
+ReadySet == LET ops == Ops(c) IN {p \in ops \ done : \A k \in Kids(p) : k \in ops => k \in done}
+\* position of p in the walk (post-)order, in closed form: the sub-tree of p occupies a contiguous block that ends with p
+RECURSIVE BlockStart(_)
+BlockStart(p) == IF p[1] = 0 THEN 0 ELSE BlockStart(Parent(p)) + Slot(p) * Depth2Tiles(Depth - p[1])
+WalkIndex(p) == BlockStart(p) + Depth2Tiles(Depth - p[1])
+ASSUME \A p \in UpTo(Depth) : WalkIndex(p) = IndexOf(GeneratePos(Depth), p)
+\* the positions that may run next: ready, and among the first Window ready ones in walk order
+Allowed == LET rs == ReadySet
+           IN IF Cardinality(rs) <= Window THEN rs
+              ELSE {p \in rs : Cardinality({q \in rs : WalkIndex(q) < WalkIndex(p)}) < Window}
+Ready(p) == p \in Allowed
 KidTiles(p) == <<pyr[Kid(p, 0)], pyr[Kid(p, 1)], pyr[Kid(p, 2)], pyr[Kid(p, 3)]>>
-Merge(p) == /\ Ready(p)
+MergeStep(p) ==
             /\ pyr' = [pyr EXCEPT ![p] = MergeTile(c.mode, c.bottomup, c.ranged, KidTiles(p), pyr[p])]
             /\ done' = done \cup {p}
             /\ UNCHANGED <<c, fin>>
-Next == \E p \in UpTo(Depth - 1) : Merge(p)
+Merge(p) == Ready(p) /\ MergeStep(p)
+Next == \E p \in Allowed : MergeStep(p)
 Spec == Init /\ [][Next]_vars
 
 Finished == done = Ops(c)
@@ -168,7 +178,8 @@ ExistenceRule ==
                               [i \in 1..4 |-> Stored(pyr[Kid(p, i - 1)])])))
 \* ... and its consequence over the leaves: a tile exists iff some leaf beneath it has a defined pixel
 HasDefined(l) == l \in DOMAIN c.leaves /\ ~AllUndef(c.mode, LeafMatrix(c, l))
-ExistsIffDataBelow == \A p \in done : pyr[p].ex <=> \E l \in Level(Depth) : InSub(l, p) /\ HasDefined(l)
+ExistsIffDataBelow == LET def == {l \in DOMAIN c.leaves : HasDefined(l)}
+                      IN \A p \in done : pyr[p].ex <=> \E l \in def : InSub(l, p)
 InDomain == Connected(c.mode, fin)
 \* a stale file at a merged position has been replaced (or removed)
 StaleReplaced == \A p \in done \cap c.stale : pyr[p] = Stored(fin[p])
@@ -185,7 +196,7 @@ LeafRangeRule == \A l \in Level(Depth) : (c.ranged /\ pyr[l].ex) => pyr[l].rng =
 NoRangeUnlessRanged == ~c.ranged => \A p \in UpTo(Depth) : pyr[p].rng = NoRange
 
 \* the walk never blocks before it is finished, and the serial (post-order) walk is one of the admitted orders
-Progress == ~Finished => \E p \in UpTo(Depth - 1) : Ready(p)
+Progress == ~Finished => Allowed # {}
 SerialAdmitted ==
     done = {} =>
         LET seq == SelectSeq(GeneratePos(Depth), LAMBDA p : p \in Ops(c))
